@@ -56,6 +56,24 @@ def contracted():
     return out
 
 
+_NAMES = None
+
+
+def names_of(key):
+    """declared variable names of the function (from `govc names`)"""
+    global _NAMES
+    if _NAMES is None:
+        _NAMES = {}
+        for pre in ('', 'network:'):
+            cmd = ['/verif/bin/govc', 'names'] + (['--prefix', pre] if pre else [])
+            r = subprocess.run(cmd, capture_output=True, text=True, env=ENV)
+            for l in r.stdout.split('\n'):
+                m = re.match(r'//@ vars (\S+): (.*)$', l)
+                if m:
+                    _NAMES[pre + m.group(1)] = sorted(set(e.split(':')[0] for e in m.group(2).split() if e != '|'))
+    return _NAMES.get(key, [])
+
+
 def find_func(repo, key):
     """-> (path, first body line, last body line) of the function with that contract key"""
     pkgdir = repo
@@ -87,7 +105,10 @@ def main():
     ap.add_argument('--out', default='/verif/out/mutation_audit.jsonl')
     ap.add_argument('--seed', type=int, default=1)
     ap.add_argument('--benign', action='store_true', help='apply behaviour-preserving rewrites instead: none may be reported')
+    ap.add_argument('--rename', action='store_true', help='behaviour-preserving: rename one local / parameter of the function consistently (implies --benign)')
     a = ap.parse_args()
+    if a.rename:
+        a.benign = True
     random.seed(a.seed)
     want = set(p for p in a.props.split(',') if p)
     scratch = tempfile.mkdtemp(prefix='govc-audit-')
@@ -108,6 +129,47 @@ def main():
             orig = open(path).read()
             lines = orig.split('\n')
             cands = []
+            if a.rename:
+                # one candidate per declared variable: the whole function with that name replaced (not after a dot, not a field key)
+                names = names_of(key)
+                for nm in names:
+                    if nm in ('_',) or len(nm) == 0:
+                        continue
+                    new = nm + 'Rn'
+                    pat = re.compile(r'(?<![\.\w])' + re.escape(nm) + r'(?!\w)(?!\s*:[^=])')
+                    body = lines[lo - 1:hi + 2]
+                    nb = [pat.sub(new, l.split('//')[0]) + ('//' + '//'.join(l.split('//')[1:]) if '//' in l else '') for l in body]
+                    if nb != body:
+                        cands.append((lo - 1, nb))
+                random.shuffle(cands)
+                done = 0
+                for start, nb in cands:
+                    if done >= a.max_per_func:
+                        break
+                    mutated = lines[:]
+                    mutated[start:start + len(nb)] = nb
+                    open(path, 'w').write('\n'.join(mutated))
+                    pkg = './network' if key.startswith('network:') else '.'
+                    b = subprocess.run(['go', 'build', pkg], cwd=repo, env=ENV, capture_output=True, text=True)
+                    if b.returncode != 0:
+                        stats['nocompile'] += 1
+                        open(path, 'w').write(orig)
+                        continue
+                    done += 1
+                    stats['mutants'] += 1
+                    prop = props[0]
+                    env = dict(ENV, GOVC_SCRATCH=os.path.join(scratch, 'out'))
+                    r = subprocess.run(['/verif/bin/govc', 'check', '--property', prop, '--repo', repo, '--contracts', 'mirror', '--only', key], env=env, capture_output=True, text=True)
+                    killed = 'VIOLATION property=' in r.stdout
+                    viol = [l.split('replays/')[-1].split('.json')[0] for l in r.stdout.split('\n') if l.startswith('VIOLATION')][:2]
+                    changed = [x.strip() for x, y in zip(nb, lines[start:start + len(nb)]) if x != y][:1]
+                    rec = {'func': key, 'prop': prop, 'mode': 'rename', 'mutant': changed[0] if changed else '', 'killed': killed, 'by': viol}
+                    out.write(json.dumps(rec) + '\n')
+                    out.flush()
+                    stats['killed' if killed else 'survived'] += 1
+                    open(path, 'w').write(orig)
+                open(path, 'w').write(orig)
+                continue
             for ln in range(lo, hi + 1):
                 code = lines[ln].split('//')[0]
                 for pat, rep in (EQUIV if a.benign else MUTATIONS):
